@@ -25,18 +25,24 @@ type BlockSpec struct {
 	Dt  int64 `json:"dt"`  // milliseconds after the previous block (>= 0)
 }
 type ChainSpec struct {
-	Initial uint64      `json:"initial"`
-	Blocks  []BlockSpec `json:"blocks"` // after the genesis block (which every chain starts with)
+	Initial  uint64      `json:"initial"`
+	Blocks   []BlockSpec `json:"blocks"`             // after the genesis block (which every chain starts with)
+	Provider int         `json:"provider,omitempty"` // signature payload provider of the chain and its nodes (Provider)
 }
 
 // Item of a history.  T: "h" header event of block I, "d" data event of block I, "restart" clean restart,
 // "crashh"/"crashd" the process dies while handling that event after K atomic writes, "crashboot" the
 // process dies and the next start dies after K writes.
+// Transient read faults of the store (items "h"/"d" only; the process lives on): F = k > 0 makes the k-th
+// store.Height() call made while the event is handled fail (k = 1: the read of the SyncLoop case itself, k >= 2:
+// iteration k-2 of trySyncNextBlock); G makes the GetBlockData calls made meanwhile fail (handleEmptyDataHash).
 type Item struct {
 	T  string `json:"t"`
 	I  int    `json:"i,omitempty"`
 	Da uint64 `json:"da,omitempty"`
 	K  int    `json:"k,omitempty"`
+	F  int    `json:"f,omitempty"`
+	G  bool   `json:"g,omitempty"`
 }
 type Replay struct {
 	Seed    int64     `json:"seed"`
@@ -89,9 +95,13 @@ type CaseResult struct {
 	Blocks  []string // Coq terms (height, option (sheader, txs))
 	Viol    []Violation
 	roots   map[string]int
+	times   map[int64]string // big time literals are defined once per case (T<i>) and referred to by name
 	rootSeq [][]byte
 	execTbl []string
 	// statistics
+	FaultsFired int // read faults that were actually delivered to the node
+	Halts       int // SyncLoop returned at a failed height read inside trySyncNextBlock (expected behaviour)
+	LostEvents  int // events skipped because the height read of their SyncLoop case failed
 	BadCrash   bool // some crash landed at write index 1 of an application (before f41125c: after the state write, before the block save)
 	StaleFiles bool // a crash happened after a clean restart had written non-empty cache files
 	Applied    int
@@ -157,6 +167,42 @@ type runner struct {
 	hdrSeen  map[int]bool
 	datSeen  map[int]bool
 	maxH     uint64
+	// SyncLoop of the current process returned at a height read inside trySyncNextBlock that the harness made
+	// fail: the code's answer to that error (sync.go: return err); the node continues after the next start
+	haltExpected bool
+}
+
+// deliver pushes one "h"/"d" item (with its read faults) into the node and keeps the oracle's books: an event
+// counts as received by the current process if SyncLoop was running when it arrived and the height read of its own
+// SyncLoop case was not made to fail (a failed read there makes the loop skip the event: it is lost, like a message
+// that never arrived, and the sender delivers it again).
+func (rn *runner) deliver(it Item, header bool) {
+	n, c, r := rn.n, rn.res.Chain, rn.res
+	wasLive := n.M != nil && !n.Dead
+	var fh bool
+	if header {
+		fh, _ = n.DeliverHeaderF(c.Headers[it.I], it.Da, it.F, it.G)
+	} else {
+		fh, _ = n.DeliverDataF(c.Datas[it.I], it.Da, it.F, it.G)
+	}
+	if fh {
+		r.FaultsFired++
+		if it.F == 1 {
+			r.LostEvents++
+		} else {
+			rn.haltExpected = true
+			if n.Dead {
+				r.Halts++
+			}
+		}
+	}
+	if wasLive && !(fh && it.F == 1) {
+		if header {
+			rn.hdrSeen[it.I] = true
+		} else {
+			rn.datSeen[it.I] = true
+		}
+	}
 }
 
 func (rn *runner) takeShapes(ws []crashds.Write) []string {
@@ -207,7 +253,7 @@ func (rn *runner) oracleStep(o Obs) {
 	if o.Height > rn.maxH {
 		rn.maxH = o.Height
 	}
-	if o.Status == 1 {
+	if o.Status == 1 && !rn.haltExpected {
 		r.fail("sync-loop-died", fmt.Sprintf("SyncLoop returned: %v", rn.n.LoopErr))
 	}
 	if o.Status == 2 {
@@ -350,17 +396,16 @@ func RunCase(t *testing.T, c *Chain, spec ChainSpec, hist []Item, tmp string) *C
 			n := rn.n
 			switch it.T {
 			case "h":
-				n.DeliverHeader(c.Headers[it.I], it.Da)
-				rn.hdrSeen[it.I] = true
+				rn.deliver(it, true)
 				res.Shapes = append(res.Shapes, rn.takeShapes(rn.newWrites()))
 			case "d":
-				n.DeliverData(c.Datas[it.I], it.Da)
-				rn.datSeen[it.I] = true
+				rn.deliver(it, false)
 				res.Shapes = append(res.Shapes, rn.takeShapes(rn.newWrites()))
 			case "restart":
 				if err := n.RestartClean(); err != nil {
 					res.fail("save-cache-failed", err.Error())
 				}
+				rn.haltExpected = false
 				rn.files = true
 				res.Shapes = append(res.Shapes, rn.takeShapes(rn.newWrites()))
 			case "crashh", "crashd":
@@ -386,7 +431,7 @@ func RunCase(t *testing.T, c *Chain, spec ChainSpec, hist []Item, tmp string) *C
 				n.CrashTo(base + k)
 				rn.logPos = 0
 				res.Shapes = append(res.Shapes, append(rn.takeShapes(ws[:k]), rn.takeShapes(rn.newWrites())...))
-				rn.hdrSeen, rn.datSeen, rn.lastBoot = map[int]bool{}, map[int]bool{}, hi+1
+				rn.hdrSeen, rn.datSeen, rn.lastBoot, rn.haltExpected = map[int]bool{}, map[int]bool{}, hi+1, false
 			case "crashboot":
 				if rn.files {
 					res.StaleFiles = true
@@ -402,7 +447,7 @@ func RunCase(t *testing.T, c *Chain, spec ChainSpec, hist []Item, tmp string) *C
 				n.CrashTo(k) // ... and dies after k writes; the next one starts
 				rn.logPos = 0
 				res.Shapes = append(res.Shapes, append(rn.takeShapes(bw[:k]), rn.takeShapes(rn.newWrites())...))
-				rn.hdrSeen, rn.datSeen, rn.lastBoot = map[int]bool{}, map[int]bool{}, hi+1
+				rn.hdrSeen, rn.datSeen, rn.lastBoot, rn.haltExpected = map[int]bool{}, map[int]bool{}, hi+1, false
 			default:
 				t.Fatalf("bad item %q", it.T)
 			}
@@ -477,8 +522,17 @@ func (r *CaseResult) projBlock(n *Node, h uint64) string {
 func (r *CaseResult) CoqDefs() []string {
 	c := r.Chain
 	var defs []string
-	defs = append(defs, fmt.Sprintf("Definition g : config := {| g_chain := 1; g_initial := %s; g_time := %s; g_proposer := Addr 1; g_initroot := 0 |}.",
-		vgen.N(c.Initial), vgen.Z(GenesisTime.UnixNano())))
+	r.times = map[int64]string{}
+	defs = append(defs, fmt.Sprintf("Definition TG : Z := %s.", vgen.Z(GenesisTime.UnixNano())))
+	r.times[GenesisTime.UnixNano()] = "TG"
+	for i, sh := range c.Headers {
+		if _, ok := r.times[sh.Time().UnixNano()]; !ok {
+			defs = append(defs, fmt.Sprintf("Definition T%d : Z := %s.", i, vgen.Z(sh.Time().UnixNano())))
+			r.times[sh.Time().UnixNano()] = fmt.Sprintf("T%d", i)
+		}
+	}
+	defs = append(defs, fmt.Sprintf("Definition g : config := {| g_chain := 1; g_initial := %s; g_time := TG; g_proposer := Addr 1; g_initroot := 0 |}.",
+		vgen.N(c.Initial)))
 	defs = append(defs, "Definition HJunk : header := {| h_height := 0; h_time := 0%Z; h_chain := 0; h_last := None; h_data := [999999]; h_app := 999999; h_proposer := AddrEmpty |}.",
 		"Definition SJunk : sheader := {| sh_hdr := HJunk; sh_sig := SigJunk 0; sh_signer := {| sg_pub := None; sg_addr := AddrEmpty |} |}.")
 	empty := block.VerifDataHashForEmptyTxs()
@@ -520,13 +574,25 @@ func (r *CaseResult) CoqDefs() []string {
 			chain = 1
 		}
 		defs = append(defs, fmt.Sprintf("Definition H%d : header := {| h_height := %s; h_time := %s; h_chain := %d; h_last := %s; h_data := %s; h_app := %d; h_proposer := %s |}.",
-			i, vgen.N(sh.Height()), vgen.Z(sh.Time().UnixNano()), chain, last, dh, app, addrOK(sh.ProposerAddress)))
+			i, vgen.N(sh.Height()), r.zt(sh.Time().UnixNano()), chain, last, dh, app, addrOK(sh.ProposerAddress)))
+		// the signature is labelled with the provider under whose payload the proposer's key verifies it
 		sig := "SigJunk 1"
 		if len(sh.Signature) == 0 {
 			sig = "SigEmpty"
-		} else if payload, err := types.DefaultSignaturePayloadProvider(&sh.Header); err == nil {
-			if ok, err := c.PubKey.Verify(payload, sh.Signature); err == nil && ok {
-				sig = fmt.Sprintf("Sig 1 H%d", i)
+		} else {
+			for p := 0; p < NumProviders; p++ {
+				payload, err := Provider(p)(&sh.Header)
+				if err != nil {
+					continue
+				}
+				if ok, err := c.PubKey.Verify(payload, sh.Signature); err == nil && ok {
+					if p == 0 {
+						sig = fmt.Sprintf("Sig 1 H%d", i)
+					} else {
+						sig = fmt.Sprintf("Sig 1 (payload %d H%d)", p, i)
+					}
+					break
+				}
 			}
 		}
 		pub := "None"
@@ -545,33 +611,49 @@ func (r *CaseResult) CoqDefs() []string {
 			if d.Metadata.ChainID == c.Genesis.ChainID {
 				mc = 1
 			}
-			meta = fmt.Sprintf("Some {| m_chain := %d; m_height := %s; m_time := %s |}", mc, vgen.N(d.Metadata.Height), vgen.Z(int64(d.Metadata.Time)))
+			meta = fmt.Sprintf("Some {| m_chain := %d; m_height := %s; m_time := %s |}", mc, vgen.N(d.Metadata.Height), r.zt(int64(d.Metadata.Time)))
 		}
 		defs = append(defs, fmt.Sprintf("Definition D%d : data := {| d_meta := %s; d_txs := %s |}.", i, meta, r.txList(d.Txs)))
 	}
 	return defs
 }
 
+// itemCoq: the model's item.  A Height() fault is part of the history (FF e n: the (n+1)-th call fails); a
+// GetBlockData fault is not (the model says it changes nothing: handleEmptyDataHash ignores the error).
 func itemCoq(it Item) string {
+	ev := func(e string) string {
+		if it.F > 0 {
+			return fmt.Sprintf("FF (%s) %s", e, vgen.Nat(it.F-1))
+		}
+		return fmt.Sprintf("FE (%s)", e)
+	}
 	switch it.T {
 	case "h":
-		return fmt.Sprintf("IEv (EvHeader S%d %s)", it.I, vgen.N(it.Da))
+		return ev(fmt.Sprintf("EvHeader S%d %s", it.I, vgen.N(it.Da)))
 	case "d":
-		return fmt.Sprintf("IEv (EvData D%d %s)", it.I, vgen.N(it.Da))
+		return ev(fmt.Sprintf("EvData D%d %s", it.I, vgen.N(it.Da)))
 	case "restart":
-		return "IRestart"
+		return "FRestart"
 	case "crashh":
-		return fmt.Sprintf("ICrash (EvHeader S%d %s) %s", it.I, vgen.N(it.Da), vgen.Nat(it.K))
+		return fmt.Sprintf("FCrash (EvHeader S%d %s) %s", it.I, vgen.N(it.Da), vgen.Nat(it.K))
 	case "crashd":
-		return fmt.Sprintf("ICrash (EvData D%d %s) %s", it.I, vgen.N(it.Da), vgen.Nat(it.K))
+		return fmt.Sprintf("FCrash (EvData D%d %s) %s", it.I, vgen.N(it.Da), vgen.Nat(it.K))
 	case "crashboot":
-		return "ICrashBoot " + vgen.Nat(it.K)
+		return "FCrashBoot " + vgen.Nat(it.K)
 	}
 	return "BAD"
 }
 
-func t3(x [3]int64) string {
-	return fmt.Sprintf("(%s, %s, %s)", vgen.N(uint64(x[0])), vgen.Z(x[1]), vgen.N(uint64(x[2])))
+// zt: a time as a Coq term — the name of the case's definition that holds it, if there is one
+func (r *CaseResult) zt(v int64) string {
+	if n, ok := r.times[v]; ok {
+		return n
+	}
+	return vgen.Z(v)
+}
+
+func (r *CaseResult) t3(x [3]int64) string {
+	return fmt.Sprintf("(%d, %s, %d)", x[0], r.zt(x[1]), x[2])
 }
 
 // CoqModule: one case as a Coq module named C<idx> defining c : scase.
@@ -586,12 +668,13 @@ func (r *CaseResult) CoqModule(idx int) string {
 		hist = append(hist, itemCoq(it))
 	}
 	for _, o := range r.Obs {
+		// ob height status state last calls da-in-store da-in-lastState da-scan-position (Check.SyncerCheck.ob; N_scope is open)
 		st, dast := "None", "None"
 		if o.HasSt {
-			st = "Some " + t3(o.St)
-			dast = "Some " + vgen.N(uint64(o.DASt))
+			st = "(Some " + r.t3(o.St) + ")"
+			dast = fmt.Sprintf("(Some %d)", o.DASt)
 		}
-		obs = append(obs, fmt.Sprintf("{| o_height := %s; o_status := %d; o_state := %s; o_last := %s; o_calls := %d; o_da := (%s, %s, %s) |}", vgen.N(o.Height), o.Status, st, t3(o.Last), o.Calls, dast, vgen.N(o.DALast), vgen.N(o.DAMgr)))
+		obs = append(obs, fmt.Sprintf("ob %d %d %s %s %d %s %d %d", o.Height, o.Status, st, r.t3(o.Last), o.Calls, dast, o.DALast, o.DAMgr))
 	}
 	for _, s := range r.Shapes {
 		ws = append(ws, vgen.List(s))
@@ -601,15 +684,15 @@ func (r *CaseResult) CoqModule(idx int) string {
 		for _, tx := range call.Txs {
 			txs = append(txs, vgen.N(r.txID(tx)))
 		}
-		log = append(log, fmt.Sprintf("(%s, %s, %s, %s)", vgen.N(call.Height), vgen.Z(call.Time), vgen.N(uint64(r.rootID(call.Prev))), vgen.List(txs)))
+		log = append(log, fmt.Sprintf("(%s, %s, %s, %s)", vgen.N(call.Height), r.zt(call.Time), vgen.N(uint64(r.rootID(call.Prev))), vgen.List(txs)))
 	}
-	fmt.Fprintf(&sb, "Definition c : scase := {| sc_cfg := g; sc_exec := %s;\n sc_chain := %s;\n sc_hist := %s;\n sc_obs := %s;\n sc_ws := %s;\n sc_log := %s;\n sc_blocks := %s |}.\nEnd C%d.",
-		vgen.List(r.execTbl), vgen.List(chain), vgen.List(hist), vgen.List(obs), vgen.List(ws), vgen.List(log), vgen.List(r.Blocks), idx)
+	fmt.Fprintf(&sb, "Definition c : scase := {| sc_cfg := g; sc_prov := %d; sc_exec := %s;\n sc_chain := %s;\n sc_hist := %s;\n sc_obs := %s;\n sc_ws := %s;\n sc_log := %s;\n sc_blocks := %s |}.\nEnd C%d.",
+		r.Chain.Provider, vgen.List(r.execTbl), vgen.List(chain), vgen.List(hist), vgen.List(obs), vgen.List(ws), vgen.List(log), vgen.List(r.Blocks), idx)
 	return sb.String()
 }
 
 const CoqHeader = "From Coq Require Import String NArith ZArith List Bool.\nFrom Verif Require Import Base.KV Base.Keys Model.Types Model.Syncer Check.SyncerCheck."
-const BadCase = "Definition bad_case : scase := {| sc_cfg := {| g_chain := 0; g_initial := 0; g_time := 0%Z; g_proposer := AddrEmpty; g_initroot := 0 |}; sc_exec := []; sc_chain := []; sc_hist := []; sc_obs := []; sc_ws := []; sc_log := []; sc_blocks := [] |}."
+const BadCase = "Open Scope N_scope.\nDefinition bad_case : scase := {| sc_cfg := {| g_chain := 0; g_initial := 0; g_time := 0%Z; g_proposer := AddrEmpty; g_initroot := 0 |}; sc_prov := 0; sc_exec := []; sc_chain := []; sc_hist := []; sc_obs := []; sc_ws := []; sc_log := []; sc_blocks := [] |}."
 
 // ---- generation ------------------------------------------------------------------------------------------
 
@@ -654,7 +737,50 @@ func GenChain(r *rand.Rand, maxBlocks int, allowRepeat bool) ChainSpec {
 			}
 		}
 	}
+	// a third of the chains is produced and synced with a non-default signature payload provider
+	if r.Intn(3) == 0 {
+		cs.Provider = 1 + r.Intn(NumProviders-1)
+	}
 	return cs
+}
+
+// AddFaults puts transient store read faults into a history of events and restarts: 1..3 events get a failing
+// store.Height() call (60 %: the read of the SyncLoop case, which makes the loop skip the event; otherwise a read
+// inside trySyncNextBlock, which makes SyncLoop return), some a failing GetBlockData.  Every event lost to a failed
+// read is delivered again at a later point (the sender retries / the other ingress path brings it too); after a
+// fault that can stop SyncLoop a clean restart follows somewhere later in 3 of 4 cases.
+func AddFaults(r *rand.Rand, evs []Item) []Item {
+	out := append([]Item{}, evs...)
+	for k := 1 + r.Intn(3); k > 0 && len(out) > 0; k-- {
+		p := r.Intn(len(out))
+		it := out[p]
+		if (it.T != "h" && it.T != "d") || it.F != 0 {
+			continue
+		}
+		if r.Intn(5) < 3 {
+			it.F = 1
+		} else {
+			it.F = 2 + r.Intn(3)
+		}
+		it.G = r.Intn(4) == 0
+		out[p] = it
+		again := Item{T: it.T, I: it.I, Da: uint64(r.Intn(20))}
+		at := p + 1 + r.Intn(len(out)-p)
+		out = InsertAt(out, at, again)
+		if it.F >= 2 && r.Intn(4) != 0 {
+			q := p + 1 + r.Intn(len(out)-p)
+			out = InsertAt(out, q, Item{T: "restart"})
+			// what arrived while SyncLoop was down is lost: deliver the event once more after the restart
+			out = InsertAt(out, q+1+r.Intn(len(out)-q), again)
+		}
+	}
+	for k := r.Intn(2); k > 0 && len(out) > 0; k-- {
+		p := r.Intn(len(out))
+		if out[p].T == "h" && out[p].F == 0 {
+			out[p].G = true
+		}
+	}
+	return out
 }
 
 // GenEvents: every header and data event of the chain (data of empty blocks sometimes too), duplicated
@@ -736,7 +862,7 @@ func ChainFor(spec ChainSpec, tmp string) (*Chain, error) {
 		return nil, err
 	}
 	defer os.RemoveAll(dir)
-	c, err := Produce(1, spec.Initial, spec.Batches(), filepath.Join(dir, "a"))
+	c, err := ProduceP(1, spec.Initial, spec.Batches(), filepath.Join(dir, "a"), spec.Provider)
 	if err != nil {
 		return nil, err
 	}
